@@ -131,7 +131,9 @@ def corruptions(case, rng):
         s2 = [list(s) for s in shapes]
         s2[k][j] += 1
         out.append(("dim_changed", base[0], s2, dict(sizes)))
-        if len(shapes) >= 2 or sizes:
+        # (the *_at operations document an empty coordinate / update tensor as "no update": einx returns the target at once,
+        #  so an emptied non-target tensor of that family is not an ill-formed call)
+        if (len(shapes) >= 2 or sizes) and not (case["fam"] == "update_at" and k >= 1):
             # an empty dimension where the other tensors / the size keywords say otherwise
             s3 = [list(s) for s in shapes]
             s3[k][j] = 0
